@@ -30,6 +30,20 @@ type Atom struct {
 	S   string
 	T   *Term
 	Sub []Atom
+	// provenance of a table-lifted token: ID = Tab[Idx]; lets concrete unary string functions be
+	// composed on the table instead of in the solver
+	Idx *Term
+	Tab []int
+}
+
+// tabTok builds the token Tab[idx] (idx assumed in range).
+func tabTok(idx *Term, tab []int) Atom {
+	keys := make([]int, len(tab))
+	for i := range keys {
+		keys[i] = i
+	}
+	v, _ := pwApply(keys, tab, idx, IDW, BVi(0, IDW))
+	return Atom{K: ATok, T: v, Idx: idx, Tab: tab}
 }
 
 type SymStr struct{ A []Atom }
@@ -428,7 +442,11 @@ func (x *Exec) nfkdAtoms(as []Atom) []Atom {
 		case ALit, ASep:
 			out = append(out, atomsOfString(norm.NFKD.String(a.S))...)
 		case ATok:
-			out = append(out, x.nfkdTok(a.T)...)
+			if a.Tab != nil && !a.T.IsConst() {
+				out = append(out, x.liftTok(a, func(s string) string { return norm.NFKD.String(s) }, "NFKD"))
+			} else {
+				out = append(out, x.nfkdTok(a.T)...)
+			}
 		case AItoa, ANorm:
 			out = append(out, a)
 		case AOpq:
@@ -438,6 +456,22 @@ func (x *Exec) nfkdAtoms(as []Atom) []Atom {
 		}
 	}
 	return out
+}
+
+// liftTok applies a concrete string function to a table-lifted token by mapping it over the table.
+func (x *Exec) liftTok(a Atom, f func(string) string, what string) Atom {
+	nt := make([]int, len(a.Tab))
+	for i, id := range a.Tab {
+		s, _ := x.in.Str(id)
+		r := f(s)
+		if hasWS(r) {
+			x.requireInfeasible(Eq(a.Idx, BVi(int64(i), a.Idx.W)), what+" of list entry introduces whitespace: "+strconv.Quote(s))
+			nt[i] = id
+			continue
+		}
+		nt[i] = x.in.ID(r)
+	}
+	return tabTok(a.Idx, nt)
 }
 
 // nfkdTok lifts NFKD over the interned table for a symbolic token ID.
